@@ -334,9 +334,9 @@ func main() {
 		Assumptions: []string{"UI driven through verif hooks in tier A; tier B covers Run/view.Print/main on the binary built with the guard off", "value prompts are answered with small numbers so that the recorded top-of-memory finding of C03 is not re-triggered"},
 		Cases: func(t string) int {
 			if t == "thorough" {
-				return nPty(t) + 150000
+				return nPty(t) + 300000
 			}
-			return nPty(t) + 5000
+			return nPty(t) + 15000
 		},
 		Floor: func(t string) int {
 			if t == "thorough" {
